@@ -14,7 +14,9 @@ EXPLANATION = (
     "switch (= one header line per appended script), and the listing enters the P2SH section under the same predicate the stepper "
     "uses (flag P2SH and the P2SH template). R12.4 the counter moves +1 per successful operation step and -1 per accepted rewind "
     "(shared with C04). R12.5 the marker shown by `print` and the line echoed by step/rewind are indexed by that counter and guarded "
-    "by the line count. The text of each line is not decided.")
+    "by the line count. R12.7 a failed operation step restores every snapshotted session field (stack, alt stack, pc, operation count, "
+    "conditional stack, code-hash start, signing data, opcode position) from the snapshot taken before it, so the marker keeps "
+    "designating the operation the next step executes. The text of each line is not decided.")
 TRUSTED = ["clang 14 parser/Sema/CFG", "/verif extractor"]
 ASSUMPTIONS = ["GetOp decodes the same operation sequence in the listing loop and in the stepper (same function, same bytes)"]
 DECLINED = ["text of each listing line (snprintf into 1024 bytes truncates pushes longer than ~508 bytes)", "equality of the listed bytes with the executed bytes beyond object identity"]
@@ -230,8 +232,11 @@ def run(ctx, anchors=None):
     # ---- R12.4 (shared)
     from .. import report
     sub = report.Ctx("C04", ctx.tier, fb, prog, ctx.seed)
-    c04.run(sub)
+    c04.run(sub, failed_step_rule=True)
+    ctx.rule("R12.7", "a failed operation step leaves the session at the failing operation (every snapshotted field restored on the failing edge)")
     for i in sub.instances:
+        if i["rule"] == "R04.F":
+            ctx.instances.append(dict(i, rule="R12.7"))
         if i["rule"] == "R04.2" and i["key"].startswith("counter"):
             ctx.instances.append(dict(i, rule="R12.4"))
         if i["rule"] == "R04.4":
@@ -300,6 +305,8 @@ def run(ctx, anchors=None):
 
 
 MUTANTS = [
+    dict(name="failed-step-keeps-pc", file="debugger/interpreter.cpp", find="            env.pc = env.pc_history.back();\n            env.nOpCount = env.nOpCount_history.back();\n            env.vfExec = env.vfExec_history.back();\n            env.pbegincodehash = env.pbegincodehash_history.back();\n            env.execdata = env.execdata_history.back();\n            env.opcode_pos = env.opcode_pos_history.back();\n            // ... and undo",
+         replace="            env.nOpCount = env.nOpCount_history.back();\n            env.vfExec = env.vfExec_history.back();\n            env.pbegincodehash = env.pbegincodehash_history.back();\n            env.execdata = env.execdata_history.back();\n            env.opcode_pos = env.opcode_pos_history.back();\n            // ... and undo", expect=["R12.7:restored-on-failure:pc_history"]),
     dict(name="dualstack-p2sh-without-flag", file="functions.cpp", find="        if ((env->flags & SCRIPT_VERIFY_P2SH) && env->successor_script.IsPayToScriptHash()) {", replace="        if (env->successor_script.IsPayToScriptHash()) {", expect=["R12.6:same-p2sh-predicate"]),
     dict(name="dualstack-header-differs", file="functions.cpp", find="        headers.push_back(\"<<< scriptPubKey >>>\");", replace="        headers.push_back(\"\");", expect=["R12.6:same-section-headers"]),
     dict(name="header-not-counted", file="btcdeb.cpp", find="        script_headers.push_back(\"<<< scriptPubKey >>>\");\n        count++;", replace="        script_headers.push_back(\"<<< scriptPubKey >>>\");", expect=["R12.1:header-counted"]),
